@@ -135,6 +135,9 @@ func (vm *Vm) Run(ctx context.Context, b []byte) ([]byte, error) {
 
 		_ = vm.st.ResetFlag(state.FLAG_TERMINATE)
 
+		// a load failure belongs to the instruction that failed: the next one starts without it
+		_ = vm.st.ResetFlag(state.FLAG_LOADFAIL)
+
 		change := vm.st.ResetFlag(state.FLAG_LANG)
 		if change {
 			if vm.st.Language != nil {
